@@ -260,6 +260,8 @@ def replay_trace(trace_lines, work, tag, profile="seq"):
 
 def minimize(trace_lines, work, profile="seq"):
     """delta-debug the event lines of one case (header kept), re-running both sides"""
+    if profile == "conc":
+        return trace_lines  # threads + schedule: kept whole
     header, events = trace_lines[0], [l for l in trace_lines[1:] if l[:1] not in "OG"]
     def rt(lines, work, tag):
         return replay_trace(lines, work, tag, profile)
@@ -375,6 +377,11 @@ PROPS = {
                     ("mix", 1024, 1000000, 30, 40), ("cuts", 256, None, 20, 30)], "relevant": "RM"},
     "C02": {"seq": [("cas", 1024, None, 80, 50), ("mix", 1024, None, 30, 40), ("ttl", 1024, None, 30, 40),
                     ("counter", 1024, None, 30, 40)], "relevant": "RM"},
+    "C03": {"seq": [("cas", 1024, None, 20, 30)], "conc": [("base", 500)], "relevant": "RMT"},
+    "C04": {"seq": [("counter", 1024, None, 20, 30)], "conc": [("rmw", 500)], "relevant": "RMT",
+            "known_classes": True},
+    "C16": {"seq": [("policy", 1024, 200, 10, 30)], "conc": [("base", 250), ("rmw", 250)], "sweep": 300, "relevant": "T",
+            "monitor_kinds": ["STUCK"]},
     "C05": {"seq": [("ttl", 1024, None, 80, 50), ("flush", 1024, None, 60, 50), ("mix", 1024, None, 30, 40)],
             "relevant": "RM"},
     "C06": {"seq": [("mix", 1024, None, 60, 40), ("cas", 1024, None, 40, 40), ("ttl", 1024, None, 40, 40),
@@ -411,18 +418,83 @@ PROPS = {
             "relevant": "RM"},
 }
 
-KINDS = {"R": "responses", "S": "connection status", "M": "store content", "U": "accounting"}
+KINDS = {"R": "responses", "S": "connection status", "M": "store content", "U": "accounting", "T": "operation results under a schedule", "W": "frame monitor"}
 
 
 def load_known():
+    """known findings: list of dicts with property, class, what"""
     known = []
     p = os.path.join(ROOT, "known_findings.txt")
     if os.path.exists(p):
         for line in open(p):
             line = line.strip()
             if line.startswith("finding:"):
-                known.append(line)
+                d = {"line": line}
+                for m in re.finditer(r"(property|class|site)=(\S+)", line):
+                    d[m.group(1)] = m.group(2)
+                m = re.search(r"what=(.*)$", line)
+                d["what"] = m.group(1) if m else line
+                known.append(d)
     return known
+
+
+def run_conc_suites(prop, cfg, tier, seed, work, report):
+    """controlled-schedule concurrency profile: implementation vs Model/Conc.v under the same
+    schedules, plus the monitor's findings. Returns (diffs, monitor_lines)."""
+    diffs, monitor = [], []
+    mult = 1 if tier == "quick" else 40
+    for si, (flavor, ncases) in enumerate(cfg.get("conc", [])):
+        tag = "conc_%d_%s" % (si, flavor)
+        tout, iobs, mobs, mon, st = [os.path.join(work, tag + e) for e in (".trace", ".impl", ".model", ".monitor", ".stats")]
+        cmd = [HBIN, "conc-gen", "--seed", str(seed + si), "--cases", str(ncases * mult), "--flavor", flavor,
+               "--trace", tout, "--obs", iobs, "--monitor", mon, "--stats", st]
+        rc, out = sh(cmd, timeout=3000)
+        if rc != 0:
+            report["errors"].append("harness failed on suite %s: %s" % (tag, out[-500:]))
+            continue
+        ok, out = run_model(tout, mobs)
+        if not ok:
+            report["errors"].append("runner failed on %s: %s" % (tag, out[-500:]))
+            continue
+        d, ncs = compare(tout, iobs, mobs)
+        report["cases"] += ncs
+        report["conc_cases"] = report.get("conc_cases", 0) + ncs
+        try:
+            stj = json.load(open(st))
+            report["events"] += stj.get("conc_steps", 0)
+            report["distribution"]["conc_steps"] = report["distribution"].get("conc_steps", 0) + stj.get("conc_steps", 0)
+        except Exception:
+            pass
+        traces = dict(split_cases(open(tout).read()))
+        for x in d:
+            diffs.append((tag,) + x)
+        for line in open(mon).read().splitlines():
+            p = line.split(" ")
+            monitor.append({"kind": p[0], "case": p[1], "class": p[2] if len(p) > 2 else "", "trace": traces.get(p[1], []), "suite": tag})
+        if not report["samples"]:
+            cs = split_cases(open(tout).read())
+            if cs:
+                report["samples"].append({"suite": tag, "trace": cs[0][1][:12]})
+        report["suites"].append(tag)
+    if cfg.get("sweep"):
+        tag = "sweep"
+        mon, st = os.path.join(work, "sweep.monitor"), os.path.join(work, "sweep.stats")
+        cmd = [HBIN, "conc-sweep", "--seed", str(seed), "--cases", str(cfg["sweep"] * mult),
+               "--stress-ms", "1500" if tier == "quick" else "60000", "--monitor", mon, "--stats", st]
+        rc, out = sh(cmd, timeout=3000)
+        if rc != 0:
+            report["errors"].append("harness failed on suite sweep: %s" % out[-500:])
+        else:
+            stj = json.load(open(st))
+            report["cases"] += stj.get("sweep_cases", 0)
+            report["events"] += stj.get("sweep_steps", 0)
+            for k, v in stj.items():
+                report["distribution"][k] = report["distribution"].get(k, 0) + v
+            for line in open(mon).read().splitlines():
+                p = line.split(" ")
+                monitor.append({"kind": p[0], "case": p[1], "class": p[2] if len(p) > 2 else "", "trace": [line], "suite": tag})
+            report["suites"].append(tag)
+    return diffs, monitor
 
 
 def write_evidence(prop, tier, seed, coverage, wall, violations, assumptions=None):
